@@ -178,7 +178,8 @@ def parse_val(t):
 
 
 def run(chk, replay=None):
-    rng = C.SplitMix(chk.seed)
+    # vlib's SplitMix streams for adjacent seeds are shifted copies of each other: spread the seeds
+    rng = C.SplitMix(chk.seed * 2654435761 + 97 * (chk.seed % 1009) + 12345)
     gen = os.path.join(C.LEAN, "Vita", "C13", "Gen.lean")
     broken = []
     names = None
@@ -261,7 +262,7 @@ def run(chk, replay=None):
                 for b in ("I3", "S61", D(1.0)):
                     lines.append(f"run {op} 0 {a} {b} {D(2.0)} {M1} {M2}")
         # random tuples: random finite bit patterns, boundary values, near-equal pairs
-        nrand = 60000 if quick else 1500000
+        nrand = 120000 if quick else 1500000
         allops = UNARY + BINARY + ["ife", "ifl", "ifz", "ifb"]
         def draw():
             k = rng.below(6)
